@@ -42,7 +42,7 @@ func pseudoVersion(modPath string) string {
 // requireBlock: the require / replace lines of the main go.mod, in the layout `go mod edit` leaves (so that the go
 // command has no reason to rewrite the file).
 func (m *Module) requireBlock() string {
-	if len(m.Ext) == 0 || m.Work {
+	if len(m.Ext) == 0 || m.WorkNoRequire() {
 		return ""
 	}
 	var b strings.Builder
@@ -82,6 +82,11 @@ func SnapshotModule(root string, m *Module) (Tree, error) {
 	t, err := Snapshot(root)
 	if err != nil {
 		return nil, err
+	}
+	if m.WorkPlace() == "parent" {
+		if b, err := os.ReadFile(filepath.Join(root, "..", "go.work")); err == nil {
+			t["../go.work"] = b
+		}
 	}
 	for _, x := range m.Ext {
 		if !strings.HasPrefix(x.Dir, "../") {
@@ -316,6 +321,20 @@ func shrinkExt(sc Scenario) []Scenario {
 			}
 			c.Module.Pkgs[pi].XImports = keep
 		}
+		for yi := range c.Module.Ext {
+			for pi := range c.Module.Ext[yi].Pkgs {
+				var keep []string
+				for _, im := range c.Module.Ext[yi].Pkgs[pi].XImports {
+					if !(im == x.ModPath || strings.HasPrefix(im, x.ModPath+"/")) || c.Module.ExtOf(im) != nil {
+						keep = append(keep, im)
+					}
+				}
+				c.Module.Ext[yi].Pkgs[pi].XImports = keep
+			}
+		}
+		if run, _ := sc.RunModule(); run != nil && run.Dir == x.Dir {
+			continue // the entrypoints lie in this member
+		}
 		for gi := range c.Gens {
 			for k := range c.Gens[gi].Steps {
 				pp := k[:strings.Index(k, " ")]
@@ -347,6 +366,14 @@ func shrinkExt(sc Scenario) []Scenario {
 			for _, q := range sc.Module.Pkgs {
 				imported = imported || containsStr(q.XImports, x.PkgPath(p.Dir))
 			}
+			for _, y := range sc.Module.Ext { // members of a workspace import one another; packages of one member, too
+				for _, q := range y.Pkgs {
+					imported = imported || containsStr(q.XImports, x.PkgPath(p.Dir)) || (y.Dir == x.Dir && containsStr(q.Imports, p.Dir))
+				}
+			}
+			for _, e := range sc.Entry {
+				imported = imported || entryDir(e) == strings.TrimSuffix(x.Dir+"/"+p.Dir, "/")
+			}
 			if !imported && len(x.Pkgs) > 1 {
 				c := clone(sc)
 				ps := c.Module.Ext[xi].Pkgs
@@ -370,41 +397,45 @@ func shrinkExt(sc Scenario) []Scenario {
 			out = append(out, c)
 		}
 	}
-	return out
-}
-
-// writeWork writes the go.work file of a workspace scenario (Module.Work): in the main module's root when every other
-// module is nested below it, otherwise in the parent directory (siblings "../x"; the main module's directory is then
-// named by its base name).  The go line is the main module's, but at least 1.18 (the first release with workspaces).
-func (m *Module) writeWork(root string) error {
-	if !m.Work || len(m.Ext) == 0 {
-		return nil
-	}
-	sibling := false
-	for _, x := range m.Ext {
-		sibling = sibling || strings.HasPrefix(x.Dir, "../")
-	}
-	gv := m.GoVer
-	var maj, min int
-	if _, err := fmt.Sscanf(gv, "%d.%d", &maj, &min); err != nil || (maj == 1 && min < 18) {
-		gv = "1.18"
-	}
-	dir, self := root, "."
-	if sibling {
-		dir, self = filepath.Dir(root), "./"+filepath.Base(root)
-	}
-	var b strings.Builder
-	fmt.Fprintf(&b, "go %s\n\nuse (\n\t%s\n", gv, self)
-	for _, x := range m.Ext {
-		if strings.HasPrefix(x.Dir, "../") {
-			fmt.Fprintf(&b, "\t./%s\n", strings.TrimPrefix(x.Dir, "../"))
-		} else {
-			fmt.Fprintf(&b, "\t%s/%s\n", self, x.Dir)
+	for xi, x := range sc.Module.Ext {
+		for pi, p := range x.Pkgs {
+			for ii := range p.XImports {
+				c := clone(sc)
+				xs := c.Module.Ext[xi].Pkgs[pi].XImports
+				c.Module.Ext[xi].Pkgs[pi].XImports = append(xs[:ii], xs[ii+1:]...)
+				out = append(out, c)
+			}
+			if len(p.Imports) > 0 {
+				c := clone(sc)
+				c.Module.Ext[xi].Pkgs[pi].Imports = nil
+				out = append(out, c)
+			}
 		}
 	}
-	b.WriteString(")\n")
-	if err := os.MkdirAll(dir, 0o755); err != nil {
-		return err
+	if sc.Module.Work != "" {
+		if sc.Module.WorkPlace() == "parent" && sc.Module.Work != "auto" {
+			c := clone(sc)
+			c.Module.Work = "root"
+			out = append(out, c)
+		}
+		if sc.Module.WorkOnly {
+			c := clone(sc)
+			c.Module.WorkOnly = false
+			out = append(out, c)
+		}
+		if run, _ := sc.RunModule(); run == nil {
+			ok := true
+			for _, x := range sc.Module.Ext {
+				for _, p := range x.Pkgs {
+					ok = ok && len(p.XImports) == 0
+				}
+			}
+			if ok { // the same modules without the workspace (require + replace)
+				c := clone(sc)
+				c.Module.Work, c.Module.WorkOnly = "", false
+				out = append(out, c)
+			}
+		}
 	}
-	return os.WriteFile(filepath.Join(dir, "go.work"), []byte(b.String()), 0o644)
+	return out
 }
